@@ -66,6 +66,11 @@ def _one(d, ctx, kind, tier_all, **kw):
         if 'source_activity_mask' in case.opts:
             c2.opts['source_activity_mask'] = \
                 case.opts['source_activity_mask'][..., perm, :]
+        if case.opts.get('fixed_covariance') is not None:
+            # a per-class input is relabelled together with the start
+            c2.opts['fixed_covariance'] = np.take(
+                case.opts['fixed_covariance'], perm,
+                axis=mm.covariance_class_axis(case))
         m1 = ctx.lib(mm.fit, c2, clause='permuted-start-raises')
         expected = permute_params(p0, perm, m0, case)
         mm.compare_params(expected, mm.params(m1, c2),
